@@ -12,8 +12,8 @@ RULE = ("case = ordered list of 2-3 sources drawn from the golden tests that nee
         "plus generated failing sources (unterminated MACRO / IF / SECTION / STRUCT / SAVE / PHASE / EXPECT / "
         "REPT / SWITCH, error storm, CPU left switched); fixed cases: a covering design in which every golden test "
         "is predecessor and successor once and every failing-predecessor kind precedes ~25 different tests; "
-        "non-trivial = different tests in one run (distinct CPU families by construction of the corpus) or a "
-        "failing predecessor; distinct by the ordered name tuple")
+        "plus every test followed by itself; non-trivial = every multi-file run (each has a predecessor whose "
+        "state could leak); distinct by the ordered name tuple")
 ASSUMPTIONS = [
     "golden tests that need private asflags (-cpu, -D, -alias, -c) are left out: the property compares runs "
     "'with the same options'",
@@ -115,8 +115,7 @@ def execute(case):
     classes = ["n%d" % len(names)] + ["failing-pred:" + n[1:] for n in names[:-1] if n.startswith("!")]
     if not compatible(names):
         return engine.discarded("include-name-clash", classes)
-    distinct = len(set(names)) > 1
-    key = "|".join(names) if distinct else None
+    key = "|".join(names)
     idxs = list(range(len(names)))
     joint, jouts, jargv = run_set(names, idxs)
     if joint.timed_out:
@@ -167,6 +166,10 @@ def fixed_cases(tier):
         if j == i:
             j = (j + 1) % n
         out.append(dict(files=[pt[i], pt[j]]))
+    # the same program twice: whatever state the first assembly leaves (ASSUMEd registers, modes, tables) meets
+    # exactly the program that set it
+    for i in range(n):
+        out.append(dict(files=[pt[i], pt[i]]))
     fk = sorted(FAILERS)
     for i in range(n):
         out.append(dict(files=["!" + fk[i % len(fk)], pt[(i * 5 + 1) % n]]))
